@@ -431,8 +431,10 @@ Qed.
 Definition sec_ok (sec : section) : Prop := let '(_, addr, size) := sec in addr < two64 /\ size < two64.
 Definition sec_fuel (fuel : nat) (sec : section) : Prop :=
   let '(_, addr, size) := sec in (N.to_nat (sec_n addr size) < fuel)%nat.
+(** fuel: only the sections that are VISITED need it - an empty section (the all-zero null section every ELF table starts
+    with: its page count `size - 1` wraps) is never delivered by the visitor *)
 Definition fuel_ok (fuel : nat) (secs : list section) (s : st) : Prop :=
-  Forall (sec_fuel fuel) secs /\ (N.to_nat (resv_n (last s)) < fuel)%nat.
+  Forall (sec_fuel fuel) (nonempty secs) /\ (N.to_nat (resv_n (last s)) < fuel)%nat.
 
 Lemma Forall_filter {A} (P : A -> Prop) f l : Forall P l -> Forall P (filter f l).
 Proof. induction 1 as [|x l Hx Hl IH]; cbn [filter]; [constructor|]. destruct (f x); [constructor|]; assumption. Qed.
@@ -452,8 +454,7 @@ Theorem setup_kernel_is_translation off secs s tr0 fuel :
 Proof.
   intros Hoff Hlast Hok [Hfs Hfr].
   apply (Forall_filter _ (fun sec => negb (snd sec =? 0))) in Hok.
-  apply (Forall_filter _ (fun sec => negb (snd sec =? 0))) in Hfs.
-  fold (nonempty secs) in Hok, Hfs.
+  fold (nonempty secs) in Hok.
   unfold go_vmm_setupPDTForKernel, setup_kernel_tr.
   unfold go_vmm_world_seam at 1. wsimp. unfold M.o_alloc.
   destruct (alloc s) as [s1 [kf|]] eqn:Ea; [|reflexivity].
